@@ -3,7 +3,7 @@
    proposal with one transaction it does not hold, and asks the application for it.  Everything is computed with the
    executable model (vm_compute). *)
 From Coq Require Import ZArith List.
-From DbftV Require Import Gates NoPanic P10 P12 Replay D1 S1 SignEpoch.
+From DbftV Require Import Gates NoPanic P10 P12 Replay D1 S1 SignLApi.
 Open Scope Z_scope.
 
 Definition cfg0 := mkCfg 1 (-1) false.
@@ -96,3 +96,12 @@ Qed.
 Example an_epoch_with_a_signature :
   exists st g, Epoch s1_cfg st g /\ KS 0 g /\ zlen (Validators st) <= 65536 /\ nsign g = 1%nat.
 Proof. exact (epoch_okb_sound s1_cfg (firstn 8 s1) 0 ltac:(vm_compute; reflexivity)). Qed.
+
+(* ... and the hypotheses of the commit-lock theorem by the same round with the call that follows the signature *)
+Example a_call_after_the_signature :
+  exists st g ev sc st' tr, Epoch s1_cfg st g /\ continues ev /\ step s1_cfg st ev sc = Ok (st', tr) /\ KS 0 (g ++ tr) /\
+                            zlen (Validators st) <= 65536 /\ nsign g <> 0%nat.
+Proof.
+  destruct (lock_okb_sound s1_cfg (firstn 8 s1) (fst (nth 8 s1 (EReset 0, []))) (snd (nth 8 s1 (EReset 0, []))) 0 ltac:(vm_compute; reflexivity))
+    as (st & g & st' & tr & H). eauto 10.
+Qed.
